@@ -2,8 +2,9 @@
 EXTENDS XLayoutRel, Json
 ClsAll == {"EOF", "EOFstd", "ComplexEOF", "HilbertEOF", "ExtendedEOF", "SparsePCA", "POP", "OPA", "EOFRotator", "EOFBootstrapper",
            "MCA", "CPCCA", "CCA", "CPCCARotator", "multiCCA", "HilbertMCA"}
-ClsQ == {"EOF", "EOFstd", "HilbertEOF", "ExtendedEOF", "POP", "OPA", "EOFRotator", "EOFBootstrapper", "MCA", "CPCCA", "CPCCARotator", "multiCCA"}
-RelAll == {"transpose", "permute_features", "permute_samples", "split_vars", "split_list", "shuffle_list_samples"}
+ClsQ == {"EOF", "EOFstd", "ComplexEOF", "HilbertEOF", "ExtendedEOF", "POP", "OPA", "EOFRotator", "EOFBootstrapper", "MCA", "CPCCA", "CPCCARotator", "multiCCA"}
+RelAll == {"transpose", "permute_features", "permute_samples", "split_vars", "split_list", "shuffle_list_samples",
+           "transpose2d", "list_swap_sample_dims"}
 NmAll == {"default", "sf", "xy"}
 NmQ == {"default", "sf"}
 Emit == phase = "done" => PrintT(<<"@@", ToJson([cfg |-> cfg, pred |-> pred])>>)
